@@ -91,6 +91,12 @@ def check(ctx):
               'the base resource loop does not forward every resource')
     run.floor('R12', n, 7, 'observer loops')
 
+    from rules import independence
+    independence.r28_functions(ctx, [('dataflows.processors.stream:stream.res_writer', {}), (rp.qualname, {}),
+                                     (rc.qualname, {'counter': 'the row count being recorded'}),
+                                     ('dataflows.processors.printer:printer.func',
+                                      {'last': 'tail buffer of printed rows', 'toprint': 'rows selected for printing',
+                                       'x': 'sampling stride of the printer'})])
     # 2. completeness of the persisted stream: separators / finalisation
     run.rule('R15', 'COMMIT-ORDER(observer): a resource is terminated / finalised only after its row loop; the stream step writes '
                     'the package before yielding it and the separator after each resource')
